@@ -11,6 +11,7 @@
      do_connect             = net/tcp/stream.rs TcpStream::connect (up to the first poll,
                               incl. the ConnectGuard of fix 5100556)
      do_poll / do_cancel    = the rest of TcpStream::connect: syn_ack.await / drop of the future
+                              (Drop for ConnectGuard incl. the RST of fix 48e101e)
      syn_arrive             = host.rs   Tcp::receive_from_network, Segment::Syn arm (+ matches)
      do_accept              = net/tcp/listener.rs TcpListener::accept + host.rs Tcp::accept
      do_drop_listener       = Drop for TcpListener + host.rs Tcp::unbind
@@ -389,12 +390,26 @@ Definition do_poll (w : world) (c : N) : world * res :=
       end
   end.
 
+(* the RST an abandoned connect sends to its destination (fix 48e101e): over the loopback
+   path, over the link (dropped if that direction is partitioned), or nowhere *)
+Definition send_abandon_rst (w : world) (c : N) (k : conn) : world :=
+  let m := {| m_cid := c; m_body := WSeg S.A S.PRst |} in
+  if S.lo (k_sys k) then loop_send w (k_host k) m
+  else match k_dhost k with
+       | Some d => link_send w (k_host k) d m
+       | None => w
+       end.
+
+(* the connect future is dropped while it is pending (cancel, timeout): the ConnectGuard removes
+   the client socket and, as the peer did not refuse, resets the peer — which may have accepted
+   the connection already *)
 Definition do_cancel (w : world) (c : N) : world * res :=
   match get_conn w c with
   | None => (w, RInvalid)
   | Some k =>
       match k_fut k with
-      | FutPending => (upd_conn w c (fun k' => set_fut (kill_client k') FutCancelled), RNone)
+      | FutPending =>
+          (send_abandon_rst (upd_conn w c (fun k' => set_fut (kill_client k') FutCancelled)) c k, RNone)
       | _ => (w, RInvalid)
       end
   end.
